@@ -843,6 +843,27 @@ class C30(Prop):
         ops += [['notify_gh', []], ['done', 0, 1], ['notify_batch', []], ['update', []]]
         return {'ci_required': rng.random() < 0.7, 'ci_last': False, 'order_desc': False, 'ops': ops}
 
+    def gen_many_contexts(self, rng):
+        """a head commit with 11-25 status contexts / check runs (the GraphQL query returns them 10 per page): everything is green,
+        approved, unlabelled and up to date except ONE required context, which often sits on the second or third page"""
+        k = rng.choice([1, 1, 2])
+        ops = [['open', i, 500 + 10 * i, 1, '00000'] for i in range(1, k + 1)]
+        ops += [['review', i, 'APPROVED'] for i in range(1, k + 1)]
+        victim = rng.randint(1, k)
+        n_ctx = rng.randint(11, 25)
+        bad = rng.randint(1, n_ctx) if rng.random() < 0.85 else 0
+        for c in range(1, n_ctx + 1):
+            state = rng.choice(['FAILURE', 'PENDING', 'ERROR', 'EXPECTED', 'TIMED_OUT', 'ACTION_REQUIRED']) if c == bad else rng.choice(['SUCCESS', 'SUCCESS', 'NEUTRAL'])
+            required = 1 if c == bad or rng.random() < 0.8 else 0
+            ops.append(['status', victim, c, required, state, rng.choice(['StatusContext', 'CheckRun'])])
+        ops.append(['notify_gh', []])
+        ops += [['done', 0, 1] for _ in range(k)]
+        ops.append(['notify_batch', []])
+        ops.append(['update', []])
+        if bad and rng.random() < 0.5:
+            ops += [['status', victim, bad, 1, 'SUCCESS', 'StatusContext'], ['notify_gh', []], ['update', []]]   # …then it turns green: now it may merge
+        return {'ci_required': rng.random() < 0.7, 'ci_last': rng.random() < 0.5, 'order_desc': False, 'ops': ops}
+
     def gen_mid_refresh(self, rng):
         """a PR becomes unmergeable on GitHub (label, review dismissed, new commit) and the webhook arrives WHILE a refresh is in
         flight — after the PR list was fetched; later its test batch succeeds and only the batch callback arrives"""
@@ -864,7 +885,9 @@ class C30(Prop):
 
     def cases(self, rng, n, tier):
         for i in range(n):
-            if i % 8 == 5:
+            if i % 8 == 1:
+                yield self.gen_many_contexts(rng)
+            elif i % 8 == 5:
                 yield self.gen_mid_refresh(rng)
             elif i % 8 == 3:
                 yield self.gen_push_race(rng)
